@@ -486,9 +486,10 @@ class Run:
         nj["restarts"] = job["restarts"] + 1
         return nj
 
-    def compare_digests(self, keyprefix, what, ref=None, same_cfg=False):
+    def compare_digests(self, keyprefix, what, ref=None, same_cfg=False, group=None):
         """For every (unit, params) executed under several (cfg, fill) variants compare the per-case
-        transcript digests; a difference is a violation keyed by unit and the pair of variants."""
+        transcript digests; a difference is a violation keyed by unit and the pair of variants.
+        group(cfg, unit) -> label: only variants with the same label are compared (first of each group is the base)."""
         compared = 0
         for (unit, pj), variants in sorted(self.digest_files.items()):
             if len(variants) < 2:
@@ -508,6 +509,12 @@ class Run:
                 for t in tables:
                     bycfg.setdefault(t[0], []).append(t)
                 for ts in bycfg.values():
+                    pairs += [(ts[0], o) for o in ts[1:]]
+            elif group:
+                byg = {}
+                for t in tables:
+                    byg.setdefault(group(t[0], unit), []).append(t)
+                for ts in byg.values():
                     pairs += [(ts[0], o) for o in ts[1:]]
             else:
                 pairs = [(tables[0], o) for o in tables[1:]]
@@ -529,9 +536,12 @@ class Run:
     def add_violation(self, key, what, info):
         v = self.viol.get(key)
         if v is None:
-            self.viol[key] = {"key": key, "what": what, "info": info, "count": 1}
+            v = self.viol[key] = {"key": key, "what": what, "info": info, "count": 1, "cfgs": []}
         else:
             v["count"] += 1
+        cfg = ((info or {}).get("job") or {}).get("cfg") if isinstance(info, dict) else None
+        if cfg and cfg not in v["cfgs"]:
+            v["cfgs"].append(cfg)            # configurations in which this key was raised (C19)
 
     def harness_fail(self, msg):
         self.harness_errors.append(msg)
